@@ -51,3 +51,81 @@ mod h {
         std::mem::forget(mgr2);
     }
 }
+
+#[cfg(kani)]
+mod h2 {
+    use actix::prelude::*;
+    use rnacos::config::core::{ConfigActor, ConfigCmd, ConfigKey, ConfigResult};
+    use rnacos::config::model::ConfigRaftCmd;
+    use std::sync::Arc;
+
+    fn bt_stub() -> std::backtrace::Backtrace { std::backtrace::Backtrace::disabled() }
+
+    #[kani::proof]
+    #[kani::unwind(40)]
+    #[kani::stub(std::backtrace::Backtrace::capture, bt_stub)]
+    fn config_two_publishes_then_get() {
+        let mut actor = ConfigActor::new();
+        let mut ctx = Context::new();
+        let pick_b: bool = kani::any();
+        let c1 = Arc::new("A".to_string());
+        let c2 = Arc::new(if pick_b { "B".to_string() } else { "A".to_string() });
+        let key = "d\x02g".to_string();
+        let _ = <ConfigActor as Handler<ConfigRaftCmd>>::handle(&mut actor, ConfigRaftCmd::ConfigAdd {
+            key: key.clone(), value: c1, config_type: None, desc: None, history_id: 1,
+            history_table_id: None, op_time: 1, op_user: None }, &mut ctx);
+        let _ = <ConfigActor as Handler<ConfigRaftCmd>>::handle(&mut actor, ConfigRaftCmd::ConfigAdd {
+            key: key.clone(), value: c2.clone(), config_type: None, desc: None, history_id: 2,
+            history_table_id: None, op_time: 2, op_user: None }, &mut ctx);
+        let r = <ConfigActor as Handler<ConfigCmd>>::handle(&mut actor, ConfigCmd::GET(ConfigKey::new("d", "g", "")), &mut ctx);
+        match r {
+            Ok(ConfigResult::Data { value, .. }) => assert!(value.as_str() == c2.as_str()),
+            _ => assert!(false),
+        }
+        std::mem::forget(actor);
+        std::mem::forget(ctx);
+    }
+}
+
+#[cfg(kani)]
+mod h3 {
+    #[kani::proof]
+    #[kani::unwind(70)]
+    fn md5_only() {
+        let s = rnacos::utils::get_md5("A");
+        assert!(s.len() == 32);
+    }
+    #[kani::proof]
+    #[kani::unwind(10)]
+    fn actor_new_only() {
+        let a = rnacos::config::core::ConfigActor::new();
+        std::mem::forget(a);
+    }
+    #[kani::proof]
+    #[kani::unwind(10)]
+    fn hashmap_only() {
+        let mut m: std::collections::HashMap<std::sync::Arc<String>, u64> = std::collections::HashMap::new();
+        let b: bool = kani::any();
+        m.insert(std::sync::Arc::new(if b { "x".to_string() } else { "y".to_string() }), 1);
+        m.insert(std::sync::Arc::new("y".to_string()), 2);
+        assert!(m.len() == if b { 2 } else { 1 });
+        std::mem::forget(m);
+    }
+}
+
+#[cfg(kani)]
+mod h4 {
+    use actix::prelude::*;
+    #[kani::proof]
+    #[kani::unwind(10)]
+    fn ctx_only() {
+        let ctx: Context<rnacos::config::core::ConfigActor> = Context::new();
+        std::mem::forget(ctx);
+    }
+    #[kani::proof]
+    #[kani::unwind(10)]
+    fn key_only() {
+        let k: rnacos::config::core::ConfigKey = "d\x02g".into();
+        assert!(k.build_key().len() == 3);
+    }
+}
